@@ -5,6 +5,7 @@ import (
 	"fmt"
 
 	of "github.com/contiv/libOpenflow/openflow13"
+	"github.com/contiv/libOpenflow/util"
 
 	"vh/fw"
 	"vh/gen"
@@ -135,6 +136,36 @@ func c02Eval(c *fw.Ctx, data any) {
 				c.Count("late_growth_histories", 1)
 				if _, err := spec.DecodeMessage(lb); err != nil {
 					c.Violation(kind, "grammar", "late-growth:"+ruleOf(err), fmt.Sprintf("%d action(s) grew after being put into their bucket: %v\nencoding (%d bytes): %s", late, err, len(lb), hexHead(lb)))
+				}
+			}
+		}
+		// values that come out of the parser are values too (a relay, a bundle whose properties only a decoder can
+		// fill): the reference encoding of the recipe, with experimenter properties on bundle adds, is parsed and the
+		// library's re-encoding walked
+		if m.K == "bundle_add" || c.Index%8 == 3 {
+			// (a recipe of the same kind restricted to what the library decodes: one-way match fields and actions
+			// come back from the parser as something else, which is not this property's business)
+			r2 := prng.Derive(c.Seed, 2002, uint64(c.Index))
+			pm := withBundleProps(r2, gen.ControllerMessage(r2, m.K, gen.MsgOpt{DecodableOnly: true, NoTyped: true}))
+			if wire, werr := spec.EncodeMessage(pm); werr == nil && len(wire) <= 65535 {
+				var re []byte
+				var perr error
+				vd := fw.Guard(len(wire), func() {
+					var msg util.Message
+					if msg, perr = of.Parse(append([]byte(nil), wire...)); perr == nil && !isNil(msg) {
+						re, perr = msg.MarshalBinary()
+					}
+				})
+				switch {
+				case vd.Class == "panic":
+					c.Violation(kind, "panic", "reparsed:"+fw.LibFrame(vd.Stack), vd.Panic+"\n"+fw.TrimStack(vd.Stack))
+				case vd.Class != "":
+					c.Poison()
+				case perr == nil && re != nil:
+					c.Count("reparsed_walked", 1)
+					if _, err := spec.DecodeMessage(re); err != nil {
+						c.Violation(kind, "grammar", "reparsed:"+ruleOf(err), fmt.Sprintf("the re-encoding of a parsed message does not walk: %v\nparsed from (%d bytes): %s\nre-encoded (%d bytes): %s", err, len(wire), hexHead(wire), len(re), hexHead(re)))
+					}
 				}
 			}
 		}
@@ -271,6 +302,15 @@ func c02Steps(c *fw.Ctx, m *rec.Rec) {
 					check(i/2 + 1)
 				}
 			}
+			// a child that grows between two adder calls: the instruction's adder derives the length from the
+			// actions it holds, so once it has run again the lengths are in step again (the state in between, after
+			// the growth alone, is builder discipline and not judged)
+			grown := of.NewNXActionConnTrack()
+			in.AddAction(grown, len(h)%4 == 2)
+			check(len(as) + 1)
+			grown.AddAction(of.NewNXActionCTNAT())
+			in.AddAction(of.NewActionOutput(uint32(len(h))), len(h)%3 == 1)
+			check(len(as) + 3)
 		case "nx_ct":
 			empty := m.Clone()
 			delete(empty.L, "actions")
